@@ -1,0 +1,27 @@
+//go:build !verif
+// +build !verif
+
+package raft
+
+import (
+	pb "github.com/marekgalovic/anndb/protobuf"
+	"github.com/marekgalovic/anndb/storage/wal"
+
+	uuid "github.com/satori/go.uuid"
+)
+
+// Hooks for the verification harness (build tag `verif`). Without the tag
+// they are no-ops: identity, nil channels (never ready in a select) and empty
+// functions.
+
+type verifSnapshotRequest struct{ skip uint64 }
+
+func verifWrapWAL(nodeId uint64, groupId uuid.UUID, storage wal.WAL) wal.WAL { return storage }
+
+func verifTransportClient(self uint64, peer uint64) pb.RaftTransportClient { return nil }
+
+func verifEvent(group *RaftGroup, point string, args ...interface{}) {}
+
+func verifTickC(group *RaftGroup) <-chan struct{} { return nil }
+
+func verifSnapC(group *RaftGroup) <-chan verifSnapshotRequest { return nil }
